@@ -41,12 +41,19 @@ class TModel(ChanModel):
         self.timers = []   # [when, w, wid, kind]  kind: sleep | deadline | timeout
         self.pipes = [Pipe() for _ in range(npipes)]
         self.depth = 0
+        self.cont = {}     # w -> operation that starts when w's current wait ends (composite operations)
 
     # completions carry the virtual time at which they happen
     def _finish(self, ent, result, comps):
         w = ent[0]
         del self.wait[w]
-        comps.append((w, result))
+        nxt = self.cont.pop(w, None)
+        if nxt is not None:
+            # first wait of a composite operation: its value or error (time-out, cancellation) is swallowed by the
+            # operation's own `try`, then the second wait begins in the same fiber turn
+            comps.extend(self._op(w, nxt, None))
+        else:
+            comps.append((w, result))
 
     def live_wid(self, w, wid):
         return w in self.wait and self.wait[w][0] == wid
@@ -73,6 +80,15 @@ class TModel(ChanModel):
             # the model state so that histories through it stay distinct and time is advanced past it.
             self.timers.append([self.now + int(op[1] * 1000), w, -1, "deadline"])
             return self._op(w, op[2], deadline)
+        if k == "trw":
+            # (try (ev/read pipe 4 nil tmo) ([e] nil)) followed by the inner operation: two waits of one fiber, the
+            # first one inside a nested fiber. Whatever the first wait registered must be inert during the second.
+            self.cont[w] = op[3]
+            comps = self._read(w, "read", op[1], 4, op[2])
+            if w in self.cont and w not in self.wait:
+                # the read completed at once
+                comps = [c for c in comps if c[0] != w] + self._op(w, self.cont.pop(w), None)
+            return comps
         comps = []
         before = self.nextwid
         if k == "sleep":
@@ -227,4 +243,4 @@ class TModel(ChanModel):
                       for pp in self.pipes)
         procs = tuple((pr["exited"], pr["waited"], None if pr["waiter"] is None else (pr["waiter"][0], self.live_wid(*pr["waiter"])))
                       for pr in self.procs)
-        return (base, timers, pipes, procs)
+        return (base, timers, pipes, procs, tuple(sorted((w, repr(o)) for w, o in self.cont.items())))
